@@ -198,20 +198,7 @@ func checkC10(c *core.Ctx) {
 		}
 	}
 	// conflicting variants of the cyclic families (a cycle guard must not hide or duplicate a conflict)
-	for _, q := range []string{
-		`{ q { ...A0 } } fragment A0 on Query { q { ...A1 } x: i } fragment A1 on Query { ... on Query { q { ...A0 } x: l { i } } }`,
-		`{ ...A0 ...A1 } fragment A0 on Query { ...A1 x: i } fragment A1 on Query { ... { ...A0 x: j(a: 1) } }`,
-		`{ q { l { ...X } ...A0 } } fragment X on Query { x: i } fragment A0 on Query { l { ...X x: j(a: 2) } ...A1 } fragment A1 on Query { ... on Query { l { x: j } ...A0 } }`,
-		`query A { ...F } query B { ...G } fragment F on Query { ...G x: i } fragment G on Query { ... on Query { ...F x: j } }`,
-		// every spread of the cycle hidden inside an inline fragment (no fragment definition holds a spread directly or
-		// under plain fields), a conflicting sibling after it
-		// cycles no operation reaches
-		`{ i } fragment F1 on Query { ... on Query { x: i ...F2 } } fragment F2 on Query { ...F1 x: j }`,
-		`{ i } fragment F1 on Query { q { ...F2 x: i } } fragment F2 on Query { ...F1 q { x: j(a: 1) } } fragment F3 on Query { ...F1 ...F3 }`,
-		`{ ...A } fragment A on Query { q { x: i ... on Query { ...A } } x: j(a: 1) }`,
-		`{ q { ...A } } fragment A on Query { l { x: i ... { ...B } } x: j } fragment B on Query { ... on Query { q { ...A } x: j(a: 2) } x: i }`,
-		`{ ...A } fragment A on Query { ... on Query { ... on Query { ...A } } q { x: i } q { x: j } }`,
-	} {
+	for _, q := range cyclicConflictDocs {
 		rq.Pairs = append(rq.Pairs, []string{adversarySDL, q})
 	}
 	for i := 0; i < nbadSchemas; i++ {
@@ -396,4 +383,23 @@ func misspell(doc *[]GT, r *rand.Rand) {
 	for i := range *doc {
 		walk(&(*doc)[i])
 	}
+}
+
+// conflicting variants of the cyclic families over adversarySDL (shared by C10 and C18)
+var cyclicConflictDocs = []string{
+	`{ q { ...A0 } } fragment A0 on Query { q { ...A1 } x: i } fragment A1 on Query { ... on Query { q { ...A0 } x: l { i } } }`,
+	`{ ...A0 ...A1 } fragment A0 on Query { ...A1 x: i } fragment A1 on Query { ... { ...A0 x: j(a: 1) } }`,
+	`{ q { l { ...X } ...A0 } } fragment X on Query { x: i } fragment A0 on Query { l { ...X x: j(a: 2) } ...A1 } fragment A1 on Query { ... on Query { l { x: j } ...A0 } }`,
+	`query A { ...F } query B { ...G } fragment F on Query { ...G x: i } fragment G on Query { ... on Query { ...F x: j } }`,
+	// every spread of the cycle hidden inside an inline fragment (no fragment definition holds a spread directly or
+	// under plain fields), a conflicting sibling after it
+	// cycles no operation reaches
+	`{ i } fragment F1 on Query { ... on Query { x: i ...F2 } } fragment F2 on Query { ...F1 x: j }`,
+	`{ i } fragment F1 on Query { q { ...F2 x: i } } fragment F2 on Query { ...F1 q { x: j(a: 1) } } fragment F3 on Query { ...F1 ...F3 }`,
+	`{ ...A } fragment A on Query { q { x: i ... on Query { ...A } } x: j(a: 1) }`,
+	`{ q { ...A } } fragment A on Query { l { x: i ... { ...B } } x: j } fragment B on Query { ... on Query { q { ...A } x: j(a: 2) } x: i }`,
+	`{ ...A } fragment A on Query { ... on Query { ... on Query { ...A } } q { x: i } q { x: j } }`,
+	// (C18-s) a cycle whose conflict sits in a nested selection set that spreads the other fragment
+	`{ ...A0 } fragment A0 on Query { ...A1 x: i } fragment A1 on Query { q { ...A0 x: j(a: 1) } }`,
+	`{ q { ...A1 } } fragment A0 on Query { ...A1 x: i } fragment A1 on Query { q { ...A0 x: l { i } } }`,
 }
